@@ -190,7 +190,7 @@ def complex_first_order(method, n, order):
     return order is None or order < 4
 
 
-def run_case(case, form=None):
+def run_case(case, form=None, xshape=None):
     """Returns (status, violations, n_args) for one case."""
     (cls, method, n, order), gen, dim, xtag = case
     import numdifftools.finite_difference as fdm
@@ -205,7 +205,11 @@ def run_case(case, form=None):
         warnings.simplefilter('ignore')
         try:
             obj = build(cls, method, n, order, gen, rec)
-            obj(x)
+            if xshape is None:
+                obj(x)
+            else:       # the same point as an n x m array / nested list (documented for Gradient: n * m variables)
+                xin = x.reshape(xshape[1])
+                obj(xin.tolist() if xshape[0] == 'nested-list' else xin)
         except ValueError:
             status = 'ValueError'
         except Exception as e:  # not C05's subject; the evaluated points still are
@@ -237,6 +241,33 @@ def work(chunk):
             acc.violation('C05:%s:%s:%s' % (cls, method, kind),
                           {'cfg': [cls, method, n, order], 'gen': list(gen), 'dim': dim, 'x': xtag},
                           detail, rank=dim * 100 + (order or 0) + n)
+    return acc
+
+
+# ---------------------------------------------------------------------------------------------
+# Gradient at an n x m point ("fun is assumed to be a function of n * m variables"): still one coordinate at a time
+
+XSHAPES = [('array', (2, 2)), ('array', (2, 3)), ('nested-list', (2, 2)), ('array', (3, 1)), ('array', (1, 4))]
+
+
+def shape_cases():
+    return [((('Gradient', method, 1, order), gen, int(np.prod(shp[1])), xt), shp)
+            for method in methods_of('Gradient') for order in (2, 4) for gen in (('default', {}), ('scalar', {'step': 1e-3}))
+            for xt in ('a', 'z') for shp in XSHAPES]
+
+
+def work_shapes(chunk):
+    acc = fw.Acc()
+    for case, shp in chunk:
+        (cls, method, n, order), gen, dim, xtag = case
+        status, bad, nargs = run_case(case, None, shp)
+        acc.case(('xshape', case, shp), nontrivial=(nargs >= 2), cell=['xshape/%s%r' % shp], outcome=(status, nargs, not bad))
+        if status != 'ok' and not bad:
+            bad = [('raised-' + status, 'the call raised %s' % status)]
+        for kind, detail in bad[:1]:
+            acc.violation('C05:%s:%s:%s:x-given-as-%s' % (cls, method, kind, shp[0]),
+                          {'cfg': [cls, method, n, order], 'gen': list(gen), 'dim': dim, 'x': xtag, 'xshape': [shp[0], list(shp[1])]},
+                          'x given as %s of shape %r: %s' % (shp[0], shp[1], detail), rank=dim * 100 + (order or 0) + n)
     return acc
 
 
@@ -359,10 +390,11 @@ def run(ctx):
     acc = ctx.pmap(work, cases)
     acc.merge(ctx.pmap(work_setters, setter_cases(), chunk=4))
     acc.merge(ctx.pmap(work_values, value_cases(), chunk=30))
+    acc.merge(ctx.pmap(work_shapes, shape_cases(), chunk=20))
     for c in cases[:3] + cases[len(cases) // 2:len(cases) // 2 + 3]:
         acc.sample({'cfg': c[0], 'gen': c[1], 'dim': c[2], 'x': make_x(c[3], c[2])})
     cells = ['%s/%s' % (cls, m) for cls in CLASSES for m in methods_of(cls)] + ['setter/Derivative', 'setter/Jacobian'] + \
-        ['values/%s' % f for f in VALUE_FORMS] + ['values/%s' % c for c in CLASSES]
+        ['values/%s' % f for f in VALUE_FORMS] + ['values/%s' % c for c in CLASSES] + ['xshape/%s%r' % shp for shp in XSHAPES]
     rule = ('full product (class, method, n, order) x generator option vectors with <= %d deviations '
             'from the defaults (+ default, scalar steps) x dimension x x-pool; every argument passed '
             'to the recording user function is checked against exact admissibility predicates; '
@@ -384,6 +416,7 @@ def replay(case):
     cfg = tuple(case['cfg'])
     gen = (case['gen'][0], case['gen'][1])
     c = (cfg, gen, case['dim'], case['x'])
-    status, bad, nargs = run_case(c, case.get('values'))
+    xs = case.get('xshape')
+    status, bad, nargs = run_case(c, case.get('values'), None if xs is None else (xs[0], tuple(xs[1])))
     text = 'case=%r status=%s evaluations=%d violations=%r' % (c, status, nargs, bad[:3])
     return (not bad), text
